@@ -91,7 +91,7 @@ def interop(a, b, kind, private_b: bool, params=None) -> str | None:
 def check_key(res, tr, label, material: RKey, jkey, params, viol, rng, thorough):
     """persist in every form, crash, reload, compare"""
     kind = _kind(material)
-    password = rng.pick(["pw", "päss wörd", "x" * 40])
+    password = rng.pick(["pw", "päss wörd", "x" * 40, "pa\u0308ss wo\u0308rd", "\u212bngstr\u00f6m \u2116 5", "\uff50\uff57"])      # any text, in whatever Unicode form
     # the order of the exports is part of the history (what a key exports first must not shape what it exports later)
     forms = list(S.FORMS)
     rng.shuffle(forms)
